@@ -337,9 +337,16 @@ func (w *World) ExtraListeners(n int) {
 func (w *World) Serve() {
 	w.served = true
 	w.serveDone = make(chan struct{})
-	lis := []net.Listener{w.Lis}
-	for _, l := range w.extraLis {
+	// the listener the remotes connect to sits in the middle of the list
+	var lis []net.Listener
+	for i, l := range w.extraLis {
+		if i == len(w.extraLis)/2 {
+			lis = append(lis, w.Lis)
+		}
 		lis = append(lis, l)
+	}
+	if len(w.extraLis) == 0 {
+		lis = append(lis, w.Lis)
 	}
 	go func() {
 		w.serveErr = w.Srv.Serve(lis)
